@@ -215,7 +215,7 @@ def run(prog: Program, rep: Report, tier: str = "quick") -> None:
     game.add_instances(rep, game.cap_job, [(i, tier, "R2.10") for i in range(n)], "R2.10", 5 * n)
     rep.arbitrate({"R2.1"}, "R2.9", "every sort is undone: result positions")
     rep.arbitrate({"R2.7"}, "R2.10", "the cap pairs every player with its own prior")
-    rep.supersede({"R2.1"}, "R2.9", "every sort is undone: result positions")
+    rep.supersede({"R2.1", "R2.5"}, "R2.9", "every sort is undone: result positions; the returned ratings are the passed objects")
     rep.supersede({"R2.7"}, "R2.10", "the cap pairs every player with its own prior")
     rep.floor("R2.1", 6 * n)
     rep.floor("R2.4", 6 * n)
